@@ -547,6 +547,15 @@ def one_round(seed, shard, heavy, do_sub, do_toys):
                 s["modifiers"] = [m for m in s["modifiers"] if m["type"] != "lumi"]
         for m in ws2["measurements"]:
             m["config"]["parameters"] = [p for p in m["config"]["parameters"] if p["name"] != "lumi"]
+        if rng.random() < 0.35:
+            # names outside ASCII (a channel, a background sample, a systematic): every subcommand must treat them as the library does
+            c16 = __import__("pyhfmon.props.c16", fromlist=["x"])
+            chn = rng.choice([c["name"] for c in ws["channels"]])
+            smp = sorted({s_["name"] for c in ws["channels"] for s_ in c["samples"] if s_["name"] != "signal"})
+            mod = sorted({m["name"] for c in ws["channels"] for s_ in c["samples"] for m in s_["modifiers"] if m["type"] in ("normsys", "histosys")})
+            ws = c16.ref_rename(ws, channels={chn: chn + "_μμ"}, samples=({(s0 := rng.choice(smp)): "t̄t_" + s0} if smp else {}),
+                                modifiers=({(m0 := rng.choice(mod)): "α_" + m0} if mod else {}))
+            shard.covered("names", "non-ASCII channel / sample / modifier names")
         wsfile = env.write("ws.json", ws)
         ws2file = env.write("ws2.json", ws2)
         # patch files: change a signal yield / observation
